@@ -15,9 +15,19 @@ from __future__ import annotations
 import ast
 
 from ..cfg import build_cfg
+from ..dataflow import Inliner
 from ..loader import AnalysisError, ClassInfo, FuncInfo, Program, norm, walk_no_nested
+from ..normalize import flat
 from ..report import Ledger
 from ..sym import DIFFERENT, EQUAL, Translator, Unsupported, Vocabulary, monotone, same, sp
+
+
+def _stmt_index(body, node) -> int:
+    """position of the top-level statement that contains `node`"""
+    for i, st in enumerate(body):
+        if any(x is node for x in ast.walk(st)):
+            return i
+    return -1
 
 
 def run(prog: Program, L: Ledger) -> None:
@@ -68,8 +78,9 @@ def run(prog: Program, L: Ledger) -> None:
         vocab.symbols["v"] = v_
         vocab.symbols["ref"] = ref
         t = Translator(vocab)
+        t.module = f.module
         try:
-            r = t.run_block(f.body())
+            r = t.run_block(flat(prog, f, afb).body())
         except Unsupported as exc:
             raise AnalysisError(f"{f.qualname}: {exc}") from exc
         if r is None:
@@ -108,9 +119,10 @@ def run(prog: Program, L: Ledger) -> None:
             raise AnalysisError(f"{f.qualname}: monotonicity of `{u}` in v is outside the structural rules (sum / signed product / increasing elementary function)")
 
     # ---------------------------------------------------------------- R3
-    ud = afb.methods.get("update_delta")
-    if ud is None:
+    ud0 = afb.methods.get("update_delta")
+    if ud0 is None:
         raise AnalysisError("update_delta missing")
+    ud = flat(prog, ud0, afb)
     ucfg = build_cfg(ud.node)
     dnodes = [n_ for n_ in ucfg.nodes if n_.kind == "stmt" and isinstance(n_.ast, (ast.Assign, ast.AnnAssign)) and any(norm(t) == "self.delta" for t in (n_.ast.targets if isinstance(n_.ast, ast.Assign) else [n_.ast.target]))]
     every = bool(dnodes)
@@ -119,52 +131,43 @@ def run(prog: Program, L: Ledger) -> None:
         if path[-1][0] is ucfg.exit and not any(n_ in dnodes for n_, _ in path):
             every = False
             skipping = [norm(n_.ast)[:60] for n_, lab in path if n_.kind == "test"]
-    L.check(every, "R3", "update_delta:every-path", ud.where,
+    L.check(every, "R3", "update_delta:every-path", ud0.where,
             f"a path through update_delta returns without recomputing delta (after testing {skipping})",
             "the step uses a delta that does not correspond to the current variance (e.g. the constructor's midpoint at zero variance instead of max_delta)", "delta")
-    vocab = Vocabulary({
-        "self.min_delta": ("dmin", {"real": True}), "self.max_delta": ("dmax", {"real": True}),
-        "self.update_functions[self.update_function](self.variation_coef)": ("U", {"real": True}),
-    })
-    t = Translator(vocab)
-    try:
-        t.run_block(ud.body())
-    except Unsupported as exc:
-        raise AnalysisError(f"update_delta: {exc}") from exc
-    dval = vocab.values.get("self.delta")
-    if dval is None:
-        raise AnalysisError("update_delta does not assign self.delta")
-    # the argument of the update function must be the freshly computed variation coefficient
-    vc = vocab.values.get("self.variation_coef")
-    U = vocab.sym("U", real=True)
-    dmin, dmax = vocab.sym("dmin", real=True), vocab.sym("dmax", real=True)
-    dval = sp.sympify(dval)
-    # re-translate with the call bound to U regardless of how the argument is spelled
-    calls = [c for c in walk_no_nested(ud.node) if isinstance(c, ast.Call) and norm(c.func).startswith("self.update_functions[")]
+    # the update function applied to the freshly computed variation coefficient (locals holding the table entry are seen through)
+    uinl = Inliner(ud.node)
+    calls = [c for c in walk_no_nested(ud.node) if isinstance(c, ast.Call) and norm(uinl.inline(c.func)).startswith("self.update_functions[")]
     if len(calls) != 1:
         raise AnalysisError("update_delta: update function application not found")
     call = calls[0]
-    L.check(norm(call.func) == "self.update_functions[self.update_function]" and len(call.args) == 1 and norm(call.args[0]) == "self.variation_coef", "R3", "update_delta:application", ud.where,
-            f"update function applied as `{norm(call)}`", "delta computed from a stale or different quantity", norm(call))
+    L.check(norm(uinl.inline(call.func)) == "self.update_functions[self.update_function]" and len(call.args) == 1 and not call.keywords and norm(call.args[0]) == "self.variation_coef", "R3", "update_delta:application", ud0.where,
+            f"update function applied as `{norm(uinl.inline(call.func))}({', '.join(norm(a_) for a_ in call.args)})`", "delta computed from a stale or different quantity", norm(call))
     vocab2 = Vocabulary({"self.min_delta": ("dmin", {"real": True}), "self.max_delta": ("dmax", {"real": True})})
-    vocab2.bind(norm(call), sp.Symbol("U", real=True))
     t2 = Translator(vocab2)
-    t2.hooks.append(lambda tr, node: sp.Symbol("U", real=True) if isinstance(node, ast.Call) and norm(node) == norm(call) else None)
-    t2.run_block(ud.body())
+    t2.module = ud0.module
+    t2.hooks.append(lambda tr, node: sp.Symbol("U", real=True) if node is call else None)
+    try:
+        t2.run_block(ud.body())
+    except Unsupported as exc:
+        raise AnalysisError(f"update_delta: {exc}") from exc
+    if "self.delta" not in vocab2.values:
+        raise AnalysisError("update_delta does not assign self.delta")
     dv = sp.sympify(vocab2.values["self.delta"])
     U2 = sp.Symbol("U", real=True)
     refd = vocab2.sym("dmin", real=True) + (vocab2.sym("dmax", real=True) - vocab2.sym("dmin", real=True)) * U2
     verdict, wit = same(dv, refd)
     if verdict == EQUAL:
-        L.ok("R3", "update_delta:delta", ud.where)
+        L.ok("R3", "update_delta:delta", ud0.where)
     elif verdict == DIFFERENT:
-        L.violation("R3", "update_delta:delta", ud.where, f"delta is not min + (max − min)·update: {wit}", f"{wit}", "delta")
+        L.violation("R3", "update_delta:delta", ud0.where, f"delta is not min + (max − min)·update: {wit}", f"{wit}", "delta")
     else:
         raise AnalysisError(f"update_delta: {wit}")
-    # variation coefficient from the scheme table on the live atoms
-    vca = [st for st in ud.body() if isinstance(st, ast.Assign) and norm(st.targets[0]) == "self.variation_coef"]
-    L.check(len(vca) == 1 and norm(vca[0].value) == "self.schemes[self.scheme](self.atoms)", "R3", "update_delta:variation", ud.where,
-            "variation coefficient is not taken from the configured scheme on the current atoms", "", norm(vca[0].value) if vca else "")
+    # variation coefficient from the scheme table on the live atoms, assigned before the update function reads it
+    vca = [st for st in walk_no_nested(ud.node) if isinstance(st, ast.Assign) and norm(st.targets[0]) == "self.variation_coef"]
+    okv = len(vca) == 1 and norm(uinl.inline(vca[0].value.func) if isinstance(vca[0].value, ast.Call) else vca[0].value) == "self.schemes[self.scheme]" \
+        and isinstance(vca[0].value, ast.Call) and [norm(a_) for a_ in vca[0].value.args] == ["self.atoms"] and _stmt_index(ud.body(), vca[0]) <= _stmt_index(ud.body(), call)
+    L.check(okv, "R3", "update_delta:variation", ud0.where,
+            "variation coefficient is not taken from the configured scheme on the current atoms before delta is computed", "", norm(vca[0].value) if vca else "")
 
     # ---------------------------------------------------------------- R4
     n = 0
